@@ -82,14 +82,21 @@ uint32_t getAsnTagLenUnsafe(const unsigned char *p)
  */
 int32_t getAsnLength(const unsigned char **pp, psSizeL_t size, psSize_t *len)
 {
+    const unsigned char *p = *pp;
     psSize32_t len32 = 0;
     int32_t rc;
 
-    if ((rc = getAsnLength32(pp, size, &len32, 0)) < 0)
+    if ((rc = getAsnLength32(&p, size, &len32, 0)) < 0)
     {
         return rc;
     }
-    *len = (uint16_t) (len32 & 0xFFFF);
+    if (len32 > 0xFFFF)
+    {
+        /* Does not fit the 16-bit result: refuse instead of truncating */
+        return PS_LIMIT_FAIL;
+    }
+    *pp = p;
+    *len = (psSize_t) len32;
     return PS_SUCCESS;
 }
 
@@ -219,14 +226,21 @@ int32_t getAsnSequence32(const unsigned char **pp, psSizeL_t size,
 
 int32_t getAsnSequence(const unsigned char **pp, psSizeL_t size, psSize_t *len)
 {
+    const unsigned char *p = *pp;
     uint32_t len32 = 0;
     int32_t rc;
 
-    if ((rc = getAsnSequence32(pp, size, &len32, 0)) < 0)
+    if ((rc = getAsnSequence32(&p, size, &len32, 0)) < 0)
     {
         return rc;
     }
-    *len = (uint16_t) (len32 & 0xFFFF);
+    if (len32 > 0xFFFF)
+    {
+        /* Does not fit the 16-bit result: refuse instead of truncating */
+        return PS_LIMIT_FAIL;
+    }
+    *pp = p;
+    *len = (psSize_t) len32;
     return PS_SUCCESS;
 }
 
@@ -259,14 +273,21 @@ int32_t getAsnSet32(const unsigned char **pp, psSizeL_t size, psSize32_t *len,
 
 int32_t getAsnSet(const unsigned char **pp, psSizeL_t size, psSize_t *len)
 {
+    const unsigned char *p = *pp;
     uint32_t len32 = 0;
     int32_t rc;
 
-    if ((rc = getAsnSet32(pp, size, &len32, 0)) < 0)
+    if ((rc = getAsnSet32(&p, size, &len32, 0)) < 0)
     {
         return rc;
     }
-    *len = (uint16_t) (len32 & 0xFFFF);
+    if (len32 > 0xFFFF)
+    {
+        /* Does not fit the 16-bit result: refuse instead of truncating */
+        return PS_LIMIT_FAIL;
+    }
+    *pp = p;
+    *len = (psSize_t) len32;
     return PS_SUCCESS;
 }
 /******************************************************************************/
